@@ -25,8 +25,9 @@ from .. import osm
 CASE_TIMEOUT = 900
 DT = 0.01
 SEEDS = ('f64n60', 'i64n48', 'f64n32')   # not a power of two / integer dtype / power of two
-RT = (np.array([0.2, 0.5, 1.0]), np.array([0.1, 0.5]))   # second menu needs a refined integration step, first does not
-SF = (np.array([1.0, 3.0, 10.0]), np.array([0.5, 2.0, 8.0, 20.0]))
+# second menu needs a refined integration step and its shortest period is below 5 dt (the step limit dt / min_dt_ratio binds), first does not
+RT = (np.array([0.2, 0.5, 1.0]), np.array([0.03, 0.5]))
+SF = (np.array([1.0, 3.0, 10.0]), np.array([0.5, 2.0, 8.0, 20.0, 60.0]))   # second menu reaches beyond the Nyquist frequency (50 Hz)
 
 
 def seed_values(seed):
@@ -436,6 +437,20 @@ def run_case(case):
         elif k in ('sf', 'rt'):
             if settings_id(old) != settings_id(new):
                 r.nontrivial += 1
+        # settings are changed by the operations that set them and by nothing else (a read, a regeneration or a change of the record
+        # leaves the smoothing frequencies, the response periods and the time step exactly as they were)
+        for sname, setter_kind in (('smooth_fa_freqs', 'sf'), ('response_times', 'rt'), ('dt', None)):
+            if k == setter_kind or not hasattr(old, sname):
+                continue
+            try:
+                a_, b_ = np.asarray(getattr(old, sname), dtype=float), np.asarray(getattr(new, sname), dtype=float)
+                same = a_.shape == b_.shape and a_.tobytes() == b_.tobytes()
+            except Exception:
+                same = False
+            r.n_cmp += 1
+            if not same:
+                r.fail('setting-changed-by-other-operation', dict(base, op=name, setting=sname),
+                       '%s changed %s' % (name, sname), observed=getattr(new, sname, None), expected=getattr(old, sname, None))
 
     if case['mode'] == 'effect':
         # non-vacuity: every mutator changes every derived quantity it should; every setting op changes its setting
